@@ -333,9 +333,25 @@ class Connection(object):
                 raise
             if t is KeyboardInterrupt and self._config["propagate_KeyboardInterrupt_locally"]:
                 raise
-            self._send(consts.MSG_EXCEPTION, seq, self._box_exc(t, v, tb))
+            self._send_exception(seq, t, v, tb)
         else:
-            self._send(consts.MSG_REPLY, seq, self._box(res))
+            try:
+                self._send(consts.MSG_REPLY, seq, self._box(res))
+            except EOFError:
+                raise
+            except Exception:
+                # the result could not be boxed or encoded (nothing was sent yet):
+                # the requester still gets exactly one response - this error
+                self._send_exception(seq, *sys.exc_info())
+
+    def _send_exception(self, seq, t, v, tb):  # dispatch
+        try:
+            self._send(consts.MSG_EXCEPTION, seq, self._box_exc(t, v, tb))
+        except EOFError:
+            raise
+        except Exception:
+            # the exception itself could not be encoded; report the encoding error instead
+            self._send(consts.MSG_EXCEPTION, seq, self._box_exc(*sys.exc_info()))
 
     def _box_exc(self, typ, val, tb):  # dispatch?
         return vinegar.dump(typ, val, tb,
